@@ -105,6 +105,23 @@ func c19BodyHistory(c *run.Ctx) {
 			kC19Hist.Do(c, c19HistCase{Src: src, First: a, Rest: rest, Exact: true})
 		}
 	}
+	// error messages and texts over containers with many members: a function of query and input, not of the walk of a map
+	for _, nkeys := range []int{9, 17, 40} {
+		big := map[string]any{}
+		for i := 0; i < nkeys; i++ {
+			big[fmt.Sprintf("k%03d", i)] = i
+		}
+		for _, src := range c05BigPrograms {
+			if strings.Contains(src, "input") || strings.Contains(src, "$ENV") || strings.Contains(src, "$__loc__") {
+				continue
+			}
+			t := c19HistCase{Src: src, First: run.TV{V: big}, Exact: true}
+			for j := 0; j < 6; j++ {
+				t.Rest = append(t.Rest, run.TV{V: map[string]any{"o": big}}, run.TV{V: big})
+			}
+			kC19Hist.Do(c, t)
+		}
+	}
 	small := gen.USmall()
 	for i := 0; i < c.N(1500, 30000); i++ {
 		g := &gen.G1{R: r, Lits: 3, Updates: 3}
